@@ -35,7 +35,7 @@ type HeapSpec struct {
 type Shape13 struct {
 	Loops, Switches int
 	Calls           []string
-	Headers         []string // per for statement, in source order: "init; cond; post" as printed by go/printer, the comparison / logical operators of cond replaced by "?"
+	Headers         []string // per for statement, in source order: "init; cond; post" as printed by go/printer, the comparison / logical operators of cond replaced by "?", its integer literals by "#"
 }
 
 type hstruct13 struct {
@@ -197,6 +197,9 @@ func TranslateHeap(repo string, spec HeapSpec) (out string, err error) {
 // the operators of a loop condition are NOT part of the fingerprint: `<` -> `<=` is a semantic change the proof must see
 var opBlind13 = regexp.MustCompile(` *(<=|>=|==|!=|<|>|&&|\|\|) *`)
 
+// ... and neither are its integer literals (`i > 0` -> `i > 1`)
+var litBlind13 = regexp.MustCompile(`\b[0-9]+\b`)
+
 func (t *trans13) src(n ast.Node) string {
 	if n == nil || isNilNode(n) {
 		return ""
@@ -213,7 +216,7 @@ func (t *trans13) shapeOf(hf *hfunc13) Shape13 {
 		switch x := n.(type) {
 		case *ast.ForStmt:
 			s.Loops++
-			s.Headers = append(s.Headers, t.src(x.Init)+"; "+opBlind13.ReplaceAllString(t.src(x.Cond), " ? ")+"; "+t.src(x.Post))
+			s.Headers = append(s.Headers, t.src(x.Init)+"; "+litBlind13.ReplaceAllString(opBlind13.ReplaceAllString(t.src(x.Cond), " ? "), "#")+"; "+t.src(x.Post))
 		case *ast.RangeStmt:
 			s.Loops++
 		case *ast.SwitchStmt:
@@ -675,22 +678,35 @@ func changesState13(e ast.Expr) bool {
 	})
 	return r
 }
-func readsState13(e ast.Expr) bool {
+
+// readsState: does the TERM of e read the state at the place where the term is used?  Calls and heap reads are bound to
+// temporaries where they are evaluated; only a field of the receiver Record stays a pure term ((SList_f l)).
+func (c *fc13) readsState13(e ast.Expr) bool {
 	r := false
 	ast.Inspect(e, func(x ast.Node) bool {
-		switch x.(type) {
-		case *ast.CallExpr, *ast.SelectorExpr:
+		if s, ok := x.(*ast.SelectorExpr); ok && c.isRecv(s.X) {
 			r = true
 		}
 		return true
 	})
 	return r
 }
+func hasSelector13(e ast.Expr) bool {
+	r := false
+	ast.Inspect(e, func(x ast.Node) bool {
+		if _, ok := x.(*ast.SelectorExpr); ok {
+			r = true
+		}
+		return true
+	})
+	return r
+}
+
 func (c *fc13) orderCheck(es []ast.Expr) {
 	for j := range es {
 		if changesState13(es[j]) {
 			for i := 0; i < j; i++ {
-				if readsState13(es[i]) {
+				if c.readsState13(es[i]) {
 					c.t.fail(es[j], "an operand that changes the state after an operand that reads it (evaluation order)")
 				}
 			}
@@ -1093,7 +1109,7 @@ func (c *fc13) seq(list []ast.Stmt, tail func() string) string {
 		if x.Init != nil || x.Tag == nil {
 			t.fail(s, "switch without a tag / with an init statement")
 		}
-		if readsState13(x.Tag) || changesState13(x.Tag) {
+		if c.readsState13(x.Tag) || changesState13(x.Tag) || hasSelector13(x.Tag) {
 			t.fail(s, "switch tag that reads the state")
 		}
 		if c.ty(t.info.Types[x.Tag].Type, x.Tag) != "Z" {
@@ -1123,7 +1139,7 @@ func (c *fc13) seq(list []ast.Stmt, tail func() string) string {
 		tag := c.expr(x.Tag, &pre)
 		var cs []string
 		for _, e := range cases[0].List {
-			if readsState13(e) || changesState13(e) {
+			if c.readsState13(e) || changesState13(e) || hasSelector13(e) {
 				t.fail(e, "case expression that reads the state")
 			}
 			cs = append(cs, fmt.Sprintf("(%s =? %s)", tag, c.expr(e, &pre)))
